@@ -179,7 +179,11 @@ class NG:
                 s += '%sexcept %s as %s:\n%s' % (ind, r.choice(['E', 'ValueError', 'mod.Err']), self.name(), self.block(d - 1, sub, inner))
             return s
         if k < .83:
-            items = ', '.join(self.primary(1) + (' as ' + self.name() if r.random() < .6 else '') for _ in range(r.randint(1, 2)))
+            # (a parenthesised tuple as the only with-item is read by CPython >= 3.9 as a list of items: not generated)
+            def item():
+                e = self.primary(1)
+                return self.name() if e.startswith('(') else e
+            items = ', '.join(item() + (' as ' + self.name() if r.random() < .6 else '') for _ in range(r.randint(1, 2)))
             return '%swith %s:\n%s' % (ind, items, self.block(d - 1, sub, inner))
         if k < .94 or ctx == 'class':
             return self.funcdef(d, ind, ctx)
